@@ -154,7 +154,7 @@ func init() {
 		c.heapSet(st, mh, "(store "+c.heapGet(st, mh)+" (i-val "+dst.E+") "+nv+")")
 		return nil
 	}
-	preludeModTable[P+"Merge"] = []string{"msgs"}
+	preludeModTable[P+"Merge"] = []string{"msgs", msgComp}
 	preludeTable[P+"Reset"] = func(c *FnCtx, fr *Frame, st *State, fn *ssa.Function, args []Val, pos token.Pos) *Val {
 		dst := args[0]
 		c.eng.onMessageWrite(c, st, dst, "proto.Reset", pos)
@@ -164,18 +164,17 @@ func init() {
 		c.heapSet(st, mh, "(store "+c.heapGet(st, mh)+" (i-val "+dst.E+") (|emptyval| (i-tag "+dst.E+")))")
 		return nil
 	}
-	preludeModTable[P+"Reset"] = []string{"msgs"}
+	preludeModTable[P+"Reset"] = []string{"msgs", msgComp}
 	// proto.Unmarshal(b, m): m's fields are overwritten with unknown contents; the error is unconstrained
 	preludeTable[P+"Unmarshal"] = func(c *FnCtx, fr *Frame, st *State, fn *ssa.Function, args []Val, pos token.Pos) *Val {
 		c.eng.onMessageWrite(c, st, args[1], "proto.Unmarshal", pos)
 		c.eng.havocMessageFieldsFrom(c, st, "unmarshal", args[1].FreshFrom)
-		if _, ok := c.eng.comps[msgComp]; ok {
-			st.heap[msgComp] = c.sc.Fresh(msgComp+"$unmarshal", c.eng.comps[msgComp])
-		}
+		mh := c.msgHeap()
+		c.heapSet(st, mh, "(store "+c.heapGet(st, mh)+" (i-val "+args[1].E+") "+c.sc.Fresh("unmarshalled", sInt)+")")
 		r := c.fresh("unmarshalErr", fn.Signature.Results().At(0).Type(), st)
 		return &r
 	}
-	preludeModTable[P+"Unmarshal"] = []string{"msgs"}
+	preludeModTable[P+"Unmarshal"] = []string{"msgs", msgComp}
 	preludeModTable["sort.Slice"] = []string{"all"}
 	preludeModTable["sort.SliceStable"] = []string{"all"}
 }
@@ -188,6 +187,17 @@ func init() {
 	filterLike := func(what string, msgArg int) preludeFn {
 		return func(c *FnCtx, fr *Frame, st *State, fn *ssa.Function, args []Val, pos token.Pos) *Val {
 			m := args[msgArg]
+			if msgArg == 0 && c.ty.SortOf(args[1].T) == sSlice {
+				// documented precondition of fmutils.Filter/Prune: the paths are valid for the message type (a path that
+				// continues through a scalar, repeated-scalar or map field makes the reflection walk panic)
+				c.sc.Decl("pathsvalid", "(declare-fun |pathsvalid| (Int Int) Bool)")
+				goal := "(or (= (s-len " + args[1].E + ") 0) (|pathsvalid| (s-arr " + args[1].E + ") (i-tag " + m.E + ")))"
+				if mt := derefMsgType(m.Dyn); mt != nil && !canFilterPanic(mt, map[string]bool{}, 0) {
+					goal = "true"
+				}
+				o := c.obligation(st, "lib", "fmutils.paths-valid", goal, pos)
+				o.Desc = what + " is called with a field mask that nothing has validated for this message type (it panics on paths through scalar/map/repeated-scalar fields)"
+			}
 			c.eng.onMessageWrite(c, st, m, what, pos)
 			c.sc.Decl("filterval", "(declare-fun |filterval| (Int Int) Int)")
 			mh := c.msgHeap()
@@ -210,7 +220,84 @@ func init() {
 	preludeTable["("+F+"NestedMask).Filter"] = filterLike("NestedMask.Filter", 1)
 	preludeTable["("+F+"NestedMask).Prune"] = filterLike("NestedMask.Prune", 1)
 	for _, n := range []string{F + "Filter", F + "Prune", "(" + F + "NestedMask).Filter", "(" + F + "NestedMask).Prune"} {
-		preludeModTable[n] = []string{"msgs"}
+		preludeModTable[n] = []string{"msgs", msgComp}
 	}
 	pureLibPrefixes = append(pureLibPrefixes, F+"NestedMaskFromPaths")
+	// fieldmaskpb.Union / Intersect: a fresh mask related to its operands by an uninterpreted predicate
+	for _, op := range []string{"Union", "Intersect"} {
+		op := op
+		preludeTable["google.golang.org/protobuf/types/known/fieldmaskpb."+op] = func(c *FnCtx, fr *Frame, st *State, fn *ssa.Function, args []Val, pos token.Pos) *Val {
+			rt := fn.Signature.Results().At(0).Type()
+			ref := c.newRef(st, "mask"+op)
+			c.nonNil[ref] = true
+			pred := q("is" + strings.ToLower(op))
+			c.sc.Decl("is"+strings.ToLower(op), "(declare-fun "+pred+" (Int Int Int) Bool)")
+			c.assume(st, "("+pred+" "+ref+" "+args[0].E+" "+args[1].E+")")
+			mt := rt.Underlying().(*types.Pointer).Elem()
+			pi := fieldIndex(mt, "Paths")
+			ps := c.fresh(op+"paths", mt.Underlying().(*types.Struct).Field(pi).Type(), st)
+			h := c.fieldHeap(mt, pi)
+			c.heapSet(st, h, "(store "+c.heapGet(st, h)+" "+ref+" "+ps.E+")")
+			mh := c.msgHeap()
+			c.heapSet(st, mh, "(store "+c.heapGet(st, mh)+" "+ref+" "+c.sc.Fresh("maskval", sInt)+")")
+			return &Val{T: rt, E: ref, FreshFrom: ref}
+		}
+	}
+	// (*fieldmaskpb.FieldMask).IsValid(m): validity of the mask's paths for m's type
+	preludeTable["(*google.golang.org/protobuf/types/known/fieldmaskpb.FieldMask).IsValid"] = func(c *FnCtx, fr *Frame, st *State, fn *ssa.Function, args []Val, pos token.Pos) *Val {
+		mask, m := args[0], args[1]
+		mt := mask.T.Underlying().(*types.Pointer).Elem()
+		pi := fieldIndex(mt, "Paths")
+		paths := "(select " + c.heapGet(st, c.fieldHeap(mt, pi)) + " " + mask.E + ")"
+		c.sc.Decl("pathsvalid", "(declare-fun |pathsvalid| (Int Int) Bool)")
+		// a nil mask is valid; an empty one too
+		e := "(or (= " + mask.E + " 0) (= (s-len " + paths + ") 0) (|pathsvalid| (s-arr " + paths + ") (i-tag " + m.E + ")))"
+		return &Val{T: tBool, E: c.sc.Define("isvalid", sBool, e)}
+	}
+}
+
+// canFilterPanic: fmutils.Filter/Prune panic only when a path continues through a repeated scalar or a map field.
+// A message type that (transitively) has no such field is safe for every mask.
+func canFilterPanic(t types.Type, seen map[string]bool, depth int) bool {
+	k := typeKey(t)
+	if seen[k] {
+		return false
+	}
+	seen[k] = true
+	if depth > 6 {
+		return true
+	}
+	st, ok := t.Underlying().(*types.Struct)
+	if !ok {
+		return true
+	}
+	for i := 0; i < st.NumFields(); i++ {
+		f := st.Field(i)
+		switch f.Name() {
+		case "state", "sizeCache", "unknownFields":
+			continue
+		}
+		switch u := f.Type().Underlying().(type) {
+		case *types.Map:
+			return true
+		case *types.Slice:
+			if b, isB := u.Elem().Underlying().(*types.Basic); isB && b.Kind() == types.Uint8 {
+				continue // bytes
+			}
+			if mt := derefMsgType(u.Elem()); mt != nil {
+				if canFilterPanic(mt, seen, depth+1) {
+					return true
+				}
+				continue
+			}
+			return true // repeated scalar
+		case *types.Pointer:
+			if mt := derefMsgType(f.Type()); mt != nil && canFilterPanic(mt, seen, depth+1) {
+				return true
+			}
+		case *types.Interface:
+			return true // oneof: wrapper types not enumerated here
+		}
+	}
+	return false
 }
